@@ -33,6 +33,8 @@ structure Inv (s : S) : Prop where
          s.deliveredAfterClose + (match s.reader with | .checked _ => 1 | _ => 0) ≤ 1
   silent : s.localClosing = false ∧ s.reportsAfterLocal = 0
 
+@[simp] theorem fixed_rr : Cfg.fixed.readerRechecks = true := rfl
+
 theorem inv_init : Inv ({} : S) where
   noPanic := ⟨rfl, rfl⟩
   closedOnce := ⟨rfl, rfl, rfl⟩
@@ -259,8 +261,19 @@ theorem inv_step {s : S} (h : Inv s) (a : Act) : Inv (step Cfg.fixed s a) := by
         · exact ⟨h1, h2, h3, h4, h5, h6, h7, h8, h9, h10, h11⟩
         · exact ⟨h1, h2, h3, h4, h5, h6, h7, h8, h9, ⟨h10'.1, by simpa using h10'.2⟩, h11⟩
     · exact ⟨h1, h2, h3, h4, h5, h6, h7, h8, h9, h10, h11⟩
-  | rCheck =>
+  | rReturnBuf =>
+    obtain ⟨h1, h2, h3, h4, h5, h6, h7, h8, h9, h10, h11⟩ := h
     simp only [step]
+    split
+    · next hr =>
+      have h10' := h10
+      rw [hr] at h10'
+      split
+      · exact ⟨h1, h2, h3, h4, h5, h6, h7, h8, h9, h10, h11⟩
+      · exact ⟨h1, h2, h3, h4, h5, h6, h7, h8, h9, ⟨h10'.1, by simpa using h10'.2⟩, h11⟩
+    · exact ⟨h1, h2, h3, h4, h5, h6, h7, h8, h9, h10, h11⟩
+  | rCheck =>
+    simp only [step, fixed_rr, Bool.true_and]
     split
     · next i hr =>
       split
@@ -378,7 +391,7 @@ theorem C13_pumps_terminate (s : S) (h : Inv s) (hc : s.closed = true) :
   have hep : errorPath Cfg.fixed s = s := by rw [errorPath_fixed]; simp [honce]
   refine ⟨?_, ?_, ?_⟩
   · intro a
-    cases a <;> simp only [step]
+    cases a <;> simp only [step, fixed_rr, Bool.true_and]
     all_goals (try (split <;> simp_all [readerRank, pumpRank]; done))
     all_goals (try (repeat' split) <;> simp_all [readerRank, pumpRank])
   · intro hr
@@ -386,7 +399,7 @@ theorem C13_pumps_terminate (s : S) (h : Inv s) (hc : s.closed = true) :
     | exited => exact absurd hrd hr
     | idle => exact ⟨.rStart, by simp [step, hrd, hch, readerRank]⟩
     | reading => exact ⟨.rReturn, by simp [step, hrd, hsock, readerRank]⟩
-    | got i => exact ⟨.rCheck, by simp [step, hrd, hc, readerRank]⟩
+    | got i => exact ⟨.rCheck, by simp [step, hrd, hc, readerRank, fixed_rr]⟩
     | checked m => exact ⟨.rDeliver, by simp [step, hrd, readerRank]⟩
   · intro hp
     cases hpd : s.pump with
@@ -414,5 +427,145 @@ theorem C13_local_close_reported_before_fix :
 example : (run Cfg.fixed [.enter, .wCheck, .wSend, .pumpTake, .pumpWrite true, .enter, .wCheck, .wSend, .pumpTake,
     .pumpWrite true]).peerGot = [0, 1] := by decide
 example : (run Cfg.fixed [.rStart, .peerFail, .rReturn, .rCheck]).reports = 1 := by decide
+
+/-- what the read pump holds was read before the close, and nothing read after the close was ever delivered -/
+def Inv2 (s : S) : Prop :=
+  (s.gotLate = true → s.closed = true) ∧ s.lateDelivered = 0 ∧ (∀ m, s.reader = .checked m → s.gotLate = false)
+
+theorem shutdown_closed_mono (s : S) (e b : Bool) (h : s.closed = true) : (shutdown Cfg.fixed s e b).1.closed = true := by
+  rw [shutdown_fixed]; split <;> simp [h]
+
+theorem shutdown_late (s : S) (e b : Bool) :
+    (shutdown Cfg.fixed s e b).1.gotLate = s.gotLate ∧ (shutdown Cfg.fixed s e b).1.lateDelivered = s.lateDelivered ∧
+    (shutdown Cfg.fixed s e b).1.reader = s.reader := by
+  rw [shutdown_fixed]; split <;> simp
+
+theorem errorPath_late (s : S) :
+    (errorPath Cfg.fixed s).gotLate = s.gotLate ∧ (errorPath Cfg.fixed s).lateDelivered = s.lateDelivered ∧
+    (errorPath Cfg.fixed s).reader = s.reader ∧ (s.closed = true → (errorPath Cfg.fixed s).closed = true) := by
+  rw [errorPath_fixed]; split <;> simp [report]
+
+theorem inv2_shutdown {s : S} (h : Inv2 s) (e b : Bool) : Inv2 (shutdown Cfg.fixed s e b).1 := by
+  obtain ⟨h1, h2, h3⟩ := h
+  have l := shutdown_late s e b
+  refine ⟨?_, by rw [l.2.1]; exact h2, ?_⟩
+  · intro hg; rw [l.1] at hg; exact shutdown_closed_mono s e b (h1 hg)
+  · intro m hm; rw [l.2.2] at hm; rw [l.1]; exact h3 m hm
+
+theorem inv2_errorPath {s : S} (h : Inv2 s) : Inv2 (errorPath Cfg.fixed s) := by
+  obtain ⟨h1, h2, h3⟩ := h
+  have l := errorPath_late s
+  refine ⟨?_, by rw [l.2.1]; exact h2, ?_⟩
+  · intro hg; rw [l.1] at hg; exact l.2.2.2 (h1 hg)
+  · intro m hm; rw [l.2.2.1] at hm; rw [l.1]; exact h3 m hm
+
+
+theorem inv2_step {s : S} (h : Inv2 s) (a : Act) : Inv2 (step Cfg.fixed s a) := by
+  cases a with
+  | localCloseBegin => simp only [step, Cfg.fixed, if_true]; exact inv2_shutdown h false false
+  | localClose => exact inv2_shutdown h false false
+  | pumpWrite ok =>
+    simp only [step]
+    split
+    · split
+      · exact h
+      · split
+        · exact h
+        · have e := inv2_errorPath h
+          exact e
+    · exact h
+  | rCheck =>
+    obtain ⟨h1, h2, h3⟩ := h
+    simp only [step, fixed_rr, Bool.true_and]
+    split
+    · next i hr =>
+      split
+      · refine ⟨h1, h2, ?_⟩
+        intro m hm; cases hm
+      · next hc =>
+        have hc' : s.closed = false := by simpa using hc
+        have hg : s.gotLate = false := by
+          cases hgl : s.gotLate with
+          | false => rfl
+          | true => have := h1 hgl; rw [hc'] at this; cases this
+        cases i with
+        | fail =>
+          have he : readErrorPath Cfg.fixed s = errorPath Cfg.fixed s := by simp [readErrorPath, Cfg.fixed]
+          simp only [he]
+          have e := inv2_errorPath (s := s) ⟨h1, h2, h3⟩
+          obtain ⟨e1, e2, e3⟩ := e
+          refine ⟨e1, e2, ?_⟩
+          intro m hm; cases hm
+        | msg m =>
+          refine ⟨h1, h2, ?_⟩
+          intro m' _; exact hg
+    · exact ⟨h1, h2, h3⟩
+  | rReturn =>
+    obtain ⟨h1, h2, h3⟩ := h
+    simp only [step]
+    split
+    · split
+      · refine ⟨fun hg => hg, h2, ?_⟩
+        intro m hm; cases hm
+      · split
+        · exact ⟨h1, h2, h3⟩
+        · refine ⟨fun hg => hg, h2, ?_⟩
+          intro m hm; cases hm
+    · exact ⟨h1, h2, h3⟩
+  | rReturnBuf =>
+    obtain ⟨h1, h2, h3⟩ := h
+    simp only [step]
+    split
+    · split
+      · exact ⟨h1, h2, h3⟩
+      · refine ⟨fun hg => hg, h2, ?_⟩
+        intro m hm; cases hm
+    · exact ⟨h1, h2, h3⟩
+  | rDeliver =>
+    obtain ⟨h1, h2, h3⟩ := h
+    simp only [step]
+    split
+    · next m hr =>
+      have hg := h3 m hr
+      refine ⟨h1, ?_, ?_⟩
+      · simp [hg, h2]
+      · intro m' hm; cases hm
+    · exact ⟨h1, h2, h3⟩
+  | rStart =>
+    obtain ⟨h1, h2, h3⟩ := h
+    simp only [step]
+    split
+    · split
+      · refine ⟨h1, h2, ?_⟩; intro m hm; cases hm
+      · refine ⟨h1, h2, ?_⟩; intro m hm; cases hm
+    · exact ⟨h1, h2, h3⟩
+  | enter => obtain ⟨h1, h2, h3⟩ := h; simp only [step]; split <;> exact ⟨h1, h2, h3⟩
+  | wCheck => obtain ⟨h1, h2, h3⟩ := h; simp only [step]; split <;> (try split) <;> exact ⟨h1, h2, h3⟩
+  | wSend => obtain ⟨h1, h2, h3⟩ := h; simp only [step]; split <;> (try split) <;> (try split) <;> exact ⟨h1, h2, h3⟩
+  | wClosed => obtain ⟨h1, h2, h3⟩ := h; simp only [step]; split <;> (try split) <;> exact ⟨h1, h2, h3⟩
+  | pumpTake => obtain ⟨h1, h2, h3⟩ := h; simp only [step]; split <;> exact ⟨h1, h2, h3⟩
+  | pumpCheck => obtain ⟨h1, h2, h3⟩ := h; simp only [step]; split <;> (try split) <;> exact ⟨h1, h2, h3⟩
+  | pumpExit => obtain ⟨h1, h2, h3⟩ := h; simp only [step]; split <;> (try split) <;> exact ⟨h1, h2, h3⟩
+  | peerSend => exact h
+  | peerFail => exact h
+
+theorem inv2_run (acts : List Act) : Inv2 (run Cfg.fixed acts) := by
+  unfold run
+  suffices ∀ s, Inv2 s → Inv2 (acts.foldl (step Cfg.fixed) s) from this _ ⟨(by intro h; cases h), rfl, (by intro m h; cases h)⟩
+  induction acts with
+  | nil => intro s h; exact h
+  | cons a rest ih => intro s h; exact ih _ (inv2_step h a)
+
+/-- **C13 (nothing read after the close is delivered)**: on every schedule, a message that a read returned
+    after the connection had been closed - by a local close, a peer close, a failed read or a failed write on
+    another goroutine - is never handed to the SHIP layer. (A message whose read ended before the close may still
+    be delivered concurrently with it: `C13_transport_loss` bounds that by one.) -/
+theorem C13_no_late_delivery (acts : List Act) : (run Generated.wsCfg acts).lateDelivered = 0 := by
+  rw [wsCfg_is_fixed]; exact (inv2_run acts).2.1
+
+/-- a read pump that looks at the result of a read without testing the closed flag again delivers such a message -/
+theorem C13_no_recheck_delivers_late :
+    (run { Cfg.fixed with readerRechecks := false } [.peerSend, .rStart, .localClose, .rReturnBuf, .rCheck, .rDeliver]).lateDelivered = 1 := by
+  decide
 
 end ShipVerif.Ws
